@@ -56,7 +56,11 @@ def file_invariants(P, relfile):
     locals say nothing about another function and are ignored."""
     inv = {}
     stores = _field_stores(P, relfile)
-    for fn in P.funcs_in(relfile):
+    for fn0 in P.funcs_in(relfile):
+        # helpers are expanded: a validation written as `if (!geometry_is_valid(dec->a, dec->b)) return ERR;`
+        # contributes the rejections of the predicate, spelled over the caller's members
+        fn = P.inlined(fn0, 2) if any(c.callee and any(g.static and g.file == fn0.file and (g.ret or "").strip() in ("_Bool", "bool")
+                                                      for g in P.by_name.get(c.callee, [])) for c in fn0.calls()) else fn0
         cz = Canon(fn)
         for n in fn.body.walk():
             if n.k != "IfStmt":
@@ -73,6 +77,8 @@ def file_invariants(P, relfile):
                 if c.k == "BinaryOperator" and c.op == "||":
                     split(c.c[0])
                     split(c.c[1])
+                elif c.k == "UnaryOperator" and c.op == "!" and c.c[0].strip().k in ("InlinedCall", "ParenExpr"):
+                    conds.extend(_predicate_rejections(c.c[0].strip()))
                 else:
                     conds.append(c)
             split(kids[0])
@@ -90,7 +96,7 @@ def file_invariants(P, relfile):
                 stable = True
                 for key in members:
                     for sfn, sn in stores.get(key, []):
-                        if sfn.key() != fn.key() or sn.i > n.i:
+                        if sfn.key() != fn0.key() or sn.i > n.i:
                             stable = False
                 if not stable:
                     continue
@@ -98,6 +104,52 @@ def file_invariants(P, relfile):
                 e = strip_base(cz(c.c[0]))
                 inv[e] = min(inv.get(e, K), K)
     return inv
+
+
+class _Leaf:
+    """A comparison `E > K` synthesised from a predicate's `return E <= K` (accepted iff E <= K)."""
+    k = "BinaryOperator"
+
+    def __init__(self, op, lhs, rhs):
+        self.op, self.c = op, [lhs, rhs]
+
+    def strip(self):
+        return self
+
+
+def _predicate_rejections(inl):
+    """Conditions under which an expanded bool helper answers false: the conditions of its
+    `if (C) return false;` statements and the negation of a final `return A <= K` / `return A < K`."""
+    out = []
+    for n in inl.walk():
+        if n.k == "IfStmt":
+            kids = [x for x in n.c if x is not None]
+            rets = [r for r in kids[1].walk() if r.k == "ReturnStmt"]
+            if rets and all(r.c and r.c[0] is not None and r.c[0].cv == 0 for r in rets):
+                def sp(c):
+                    c = c.strip()
+                    if c.k == "BinaryOperator" and c.op == "||":
+                        sp(c.c[0])
+                        sp(c.c[1])
+                    else:
+                        out.append(c)
+                sp(kids[0])
+        elif n.k == "ReturnStmt" and n.c and n.c[0] is not None and n.c[0].cv is None:
+            e = n.c[0].strip()
+            if e.k == "BinaryOperator" and e.op in ("<=", "<") and e.c[1].cv is not None:
+                out.append(_Leaf(">" if e.op == "<=" else ">=", e.c[0], e.c[1]))
+    if inl.k == "ParenExpr":
+        # a single-return helper became its expression: `return a <= K && b <= M` -> both bounds
+        def sp2(c):
+            c = c.strip()
+            if c.k == "BinaryOperator" and c.op == "&&":
+                sp2(c.c[0])
+                sp2(c.c[1])
+            elif c.k == "BinaryOperator" and c.op in ("<=", "<") and c.c[1].cv is not None:
+                out.append(_Leaf(">" if c.op == "<=" else ">=", c.c[0], c.c[1]))
+        if inl.c and inl.c[0] is not None:
+            sp2(inl.c[0])
+    return out
 
 
 def array_len(node):
@@ -246,6 +298,31 @@ def _bound(P, fn, cz, node, idx, L, inv, field_consts):
             exits = any(r.k == "ReturnStmt" for r in kids[1].walk())
             if resets and exits:
                 return "ok:`if (%s) refill` resets %s to 0 (or returns); %s <= %d" % (src(c), base.name, src(B), bk)
+    # (e) ensure idiom: `if (!ensure(dec)) <exit>;` dominates the access, and ensure() answers true only when
+    # the index is below a bounded limit (it saw `idx < B`) or right after it was reset to 0 (a refill)
+    if base.k == "MemberExpr":
+        for g in fn.body.walk():
+            if g.k != "IfStmt":
+                continue
+            kids = [x for x in g.c if x is not None]
+            c = kids[0].strip_casts()
+            neg = False
+            while c is not None and c.k == "UnaryOperator" and c.op == "!":
+                neg = not neg
+                c = c.c[0].strip_casts()
+            if c is None or c.k != "CallExpr" or not c.callee or not neg:
+                continue
+            if not any(r.k in ("ReturnStmt", "BreakStmt", "GotoStmt", "ContinueStmt") for r in kids[1].walk()):
+                continue
+            first = min((x for x in g.walk() if x.i in w), key=lambda x: x.i, default=None)
+            if first is None or not fn.cfg.node_dominates(first, node) or any(x is node for x in kids[1].walk()):
+                continue
+            for h in P.by_name.get(c.callee, []):
+                if h.file != fn.file or not h.static or h.cfg is None:
+                    continue
+                lim = _ensures_below(P, h, base.name, inv, field_consts, L, minus)
+                if lim is not None:
+                    return "ok:%s() answers true only with %s below %s or just reset to 0" % (h.name, base.name, lim)
     # `x > 0` guard with index x - 1 and x bounded above by a guard elsewhere (nesting level idiom)
     if minus > 0:
         t = strip_base(cz(base))
@@ -316,6 +393,58 @@ def _loop_bound(P, fn, cz, N, L, minus, inv, field_consts, depth):
             return "ok:loop bound `%s` is parameter %d of this helper; at every call site (%s)" % (src(N), pi, "; ".join(hows))
     return "loop bound `%s` (%s) has no validation guard `... > K -> error` with K <= %d in this file" % (
         src(N), show(t), L)
+
+
+def _ensures_below(P, h, field, inv, field_consts, L, minus):
+    """In helper h: no path reaches `return <non-zero>` without either the branch outcome `field < B`
+    (B bounded by <= L) or a reset of `field` to 0 (in h or in a function of the file it calls)."""
+    from .flow import find_path_avoiding
+    cz = Canon(h)
+    limits = []
+
+    def bound_of(B):
+        tB = strip_base(cz(B))
+        if B.cv is not None:
+            return B.cv
+        if tB in inv:
+            return inv[tB]
+        return field_consts.get(_field_name(B))
+
+    def resets(e):
+        if is_assign(e) and e.op == "=" and e.c[0].strip().k == "MemberExpr" and e.c[0].strip().name == field and e.c[1].cv == 0:
+            return True
+        if e.k == "CallExpr" and e.callee:
+            return any(cal.file == h.file and cal.key() != h.key() and _resets_field(P, cal, field, 2) for cal in P.by_name.get(e.callee, []))
+        return False
+
+    def cut(B, si):
+        if B.cond is None or len(B.succs) != 2:
+            return False
+        c = B.cond.strip_casts()
+        neg = False
+        while c is not None and c.k == "UnaryOperator" and c.op == "!":
+            neg = not neg
+            c = c.c[0].strip_casts()
+        if c is None or c.k != "BinaryOperator" or c.op not in ("<", ">="):
+            return False
+        l = c.c[0].strip_casts()
+        if l.k != "MemberExpr" or l.name != field:
+            return False
+        bk = bound_of(c.c[1].strip_casts())
+        if bk is None or bk - minus > L:
+            return False
+        holds_below = ((si == 0) != neg) if c.op == "<" else ((si == 0) == neg)
+        if holds_below:
+            limits.append(src(c.c[1]))
+        return holds_below
+    trues = [r for r in h.returns() if r.c and r.c[0] is not None and r.c[0].cv not in (0, None)]
+    other = [r for r in h.returns() if r.c and r.c[0] is not None and r.c[0].cv is None]
+    if not trues or other:
+        return None
+    for r in trues:
+        if find_path_avoiding(h.cfg, resets, lambda e, r=r: e is r, cut) is not None:
+            return None
+    return limits[0] if limits else "its limit"
 
 
 def _field_name(n):
